@@ -1,6 +1,6 @@
 (* C09 - A session with four conforming clients always runs to completion (every schedule).
    Only statements, each closed by [exact]; proofs are in the files imported below. *)
-From BE Require Import Model.Session Model.SessionTie Spec.SessionSpec Proofs.Kahn Proofs.Session Proofs.SessionExamples.
+From BE Require Import Model.Session Model.SessionTie Spec.SessionSpec Proofs.Kahn Proofs.Session Proofs.SessionExamples Proofs.SessionPassOut Proofs.Wire.
 From Coq Require Import ZArith.
 Local Open Scope nat_scope.
 Local Open Scope list_scope.
@@ -50,6 +50,26 @@ Theorem C09_every_schedule_completes_partial :
     (exists l'', srun l'' s' = Some s /\ length l' + length l'' = length sched) /\ (sfinal s' -> s' = s).
 Proof. exact every_schedule_reaches_canonical. Qed.
 Print Assumptions C09_every_schedule_completes_partial.
+
+(* FULL, symbolic and unbounded, for one infinite family: ANY non-empty list of boards (arbitrary deals, dealers, vulnerabilities, ids), four clients arriving N, E, S, W, everybody passing: a schedule exists that drives the network to the state where every process has returned, with a log of one record per board *)
+Theorem C09_passed_out_sessions_complete :
+  forall boards ns ew,
+  boards <> [] -> no_quote ns -> no_quote ew ->
+  exists l f, srun l (init_state (passout_session boards ns ew)) = Some f /\
+              Kahn.all_doneb msg f = true /\
+              exists recs, log_events 4 f = LOpen :: map LRec recs ++ [LClose] /\ length recs = length boards.
+Proof. exact passout_session_completes. Qed.
+Print Assumptions C09_passed_out_sessions_complete.
+
+(* hence EVERY schedule of such a session completes, in the same way and within the same number of steps *)
+Theorem C09_passed_out_sessions_every_schedule :
+  forall boards ns ew,
+  boards <> [] -> no_quote ns -> no_quote ew ->
+  exists f n, Kahn.all_doneb msg f = true /\
+    forall l' s', srun l' (init_state (passout_session boards ns ew)) = Some s' ->
+      length l' <= n /\ (sfinal s' -> s' = f).
+Proof. exact passout_session_every_schedule. Qed.
+Print Assumptions C09_passed_out_sessions_every_schedule.
 
 (* non-vacuity: a two-board session taken from a real run *)
 Theorem C09_example_played_session_completes :
